@@ -4,7 +4,7 @@
 From Coq Require Import List NArith Bool Lia ZifyN ZifyNat ZifyBool Arith.
 From Frugal Require Import Bytes Wire Skip Desc Checks.
 From Frugal.gen Require Import Params.
-From Frugal.proofs Require Import BytesWire.
+From Frugal.proofs Require Import BytesWire ParamsSplit.
 Import ListNotations.
 Open Scope N_scope.
 
@@ -87,15 +87,14 @@ Proof.
 Qed.
 
 (* ------------------------------------------------------------------ *)
-(* what params_ok says about the skipper's constants                   *)
+(* what dec_params_ok says about the skipper's constants                   *)
 
 Section WithParams.
-Hypothesis Hok : params_ok = true.
+Hypothesis Hok : dec_params_ok = true.
 
 Lemma gk_ok_holds : gk_ok = true.
 Proof.
-  pose proof Hok as H. unfold params_ok in H.
-  apply andb_true_iff in H. destruct H as [_ H]. exact H.
+  exact (dec_gk Hok).
 Qed.
 
 Lemma gk_consts :
@@ -561,12 +560,12 @@ Qed.
 
 End WithParams.
 
-Theorem skip_put : params_ok = true ->
+Theorem skip_put : dec_params_ok = true ->
   forall w d rest, wf w = true -> (wdepth w < d)%nat ->
   skip_type d (code_of w) (put w ++ rest) = SOk (len (put w)).
 Proof. intros Hok w d rest. apply skip_put_S. exact Hok. Qed.
 
-Corollary gk_skip_put : params_ok = true ->
+Corollary gk_skip_put : dec_params_ok = true ->
   forall w rest, wf w = true -> (wdepth w < N.to_nat gk_defaultRecursionDepth)%nat ->
   gk_skip (put w ++ rest) (code_of w) = SOk (len (put w)).
 Proof.
